@@ -1,6 +1,11 @@
 import Verif.Properties.C01
+import Verif.Properties.C01Move
 #print axioms C01.cert_sound
 #print axioms C01.validated_start_pairs
 #print axioms C01.example_accepts
 #print axioms C01.example_rejects
 #print axioms C01.bisim_sound
+#print axioms C01.naming_move_preserves_meaning
+#print axioms C01.rewriteSchemaToRef_is_setAt
+#print axioms C01.tiny_targetsOK
+#print axioms C01.tiny_stable
